@@ -1,7 +1,9 @@
 package luis
 
 import (
+	"maps"
 	"net/http"
+	"slices"
 	"sort"
 
 	"github.com/nyaruka/gocommon/httpx"
@@ -40,8 +42,9 @@ func (s *service) Classify(env envs.Environment, input string, logHTTP flows.HTT
 		Entities: make(map[string][]flows.ExtractedEntity, len(response.Prediction.Entities.Values)),
 	}
 
-	for name, intent := range response.Prediction.Intents {
-		result.Intents = append(result.Intents, flows.ExtractedIntent{Name: name, Confidence: intent.Score})
+	// by name first so that intents with equal scores have a stable order
+	for _, name := range slices.Sorted(maps.Keys(response.Prediction.Intents)) {
+		result.Intents = append(result.Intents, flows.ExtractedIntent{Name: name, Confidence: response.Prediction.Intents[name].Score})
 	}
 	sort.SliceStable(result.Intents, func(i, j int) bool { return result.Intents[i].Confidence.GreaterThan(result.Intents[j].Confidence) })
 
